@@ -109,7 +109,10 @@ def programs(ctx):
         # still be seen - or the whole pickle refused - never silently cut off
         unmodelled = [b"ccollections\ndeque\n)R(K\x01K\x02e0", b"ccollections\ndeque\n)RK\x01a0",
                       b"ccollections\nUserList\n)R}bK\x01a0", b"ccollections\nOrderedDict\n)R(" + _k("k") + b"K\x01u0",
-                      b"K\x07Q0", b"Ppid\n0"]
+                      b"K\x07Q0", b"Ppid\n0",
+                      # ... the same on a global pushed directly (sys.path.extend shape)
+                      b"ccollections\nOrderedDict\nK\x01a0", b"ccollections\ndeque\n(K\x01K\x02e0",
+                      b"\x80\x04ccollections\nChainMap\n(K\x01\x900", b"ccollections\nUserDict\n(" + _k("k") + b"K\x01u0"]
         return gen.BENIGN_PRE + same + unmodelled
 
     # A. import only
@@ -306,11 +309,23 @@ def loader_face(ctx, label, data, rank, reason, fresh_sev):
     loader.pickle = FakePickle
     want = [k for k, v in RANK.items() if v == rank][0]
     for first in (BENIGN_FIRST[int(h(data)[2:4], 16) % len(BENIGN_FIRST)],):
-        for how in ("seek-past", "load-first-then-second", "bytearray-slice"):
+        for how in ("seek-past", "load-first-then-second", "bytearray-slice", "mmap-seek-past", "memoryview"):
             FakePickle.calls.clear()
             try:
                 if how == "bytearray-slice":
                     src = bytearray(data)
+                elif how == "memoryview":
+                    src = io.BytesIO(memoryview(first + data)[len(first):])
+                elif how == "mmap-seek-past":
+                    import mmap
+                    import os
+                    mp = os.path.join(ctx.scratch, "c04_map.bin")
+                    with open(mp, "wb") as fh:
+                        fh.write(first + data)
+                    with open(mp, "rb") as fh:
+                        src = mmap.mmap(fh.fileno(), 0, access=mmap.ACCESS_READ)
+                    os.remove(mp)
+                    src.seek(len(first))
                 else:
                     src = io.BytesIO(first + data)
                     if how == "seek-past":
